@@ -347,6 +347,9 @@ class Prop(core.Prop):
             tv.units = '%s since %04d-%02d-%02d 00:00:00' % (unit, y0, m0, d0)
             tv[:] = vals + base
         qnum = [0., 1., 2.9, 3.1, 6., 9., 11., 21., 29., 30.]
+        # a tenth of a second either side of every interior cell edge (3, 9, 21) and of a centre
+        tenth = datetime.timedelta(seconds=0.1) / step
+        qnum += [e_ + s_ * tenth for e_ in (3., 9., 21., 6.) for s_ in (-1, 1)]
         if method == 'exact':
             qnum = [0., 6., 12., 30.]
         qdt = [ref + q * step for q in qnum]
